@@ -55,6 +55,7 @@ def install(I, repo, concrete=False):
     I.summaries[repo.find_method(gci, "from_bytes").qualname] = gps_from
     I.summaries[repo.find_method(gci, "as_bytes").qualname] = lambda I_, fi, a, kw, bc: ABits(list(a[0].attrs["__box__"].items), "bytes") if "__box__" in a[0].attrs else NotImplemented
     I.summaries[repo.find_method(gci, "__repr__").qualname] = lambda *a: "GPS"
+    I.summaries[repo.find_method(gci, "zero").qualname] = lambda I_, fi, a, kw, bc: AObj(gci, {"__box__": ABits([F(0, 0)] * 320, "bytes")})
     if concrete:
         return  # constant evaluation of captures runs the real checksum loop
     hci = repo.cls(f"{PMOD}.hrnp", "HRNP")
@@ -240,7 +241,63 @@ def run(ctx):
             top = o.cls.name
             shp = (dname, shape_of(o))
             shapes.setdefault(shp, (fname, raw, dname))
-    # TMP option variants (object-level): option data of 3 octets / zero octets
+    # ---- phase 1b: sibling shapes — the captured object re-encoded under every other opcode of its service
+    # (constant evaluation; kept when writer and reader accept it), so opcodes without a capture are covered too
+    hd_ci, hd_fb = decoders["HDAP"]
+    derived = 0
+    for shp, (fname, raw, dname) in list(shapes.items()):
+        if dname != "HDAP":
+            continue
+        def run_o(st, raw=raw):
+            I0.st = st
+            return I0.call(hd_fb, [raw], {})
+        r0 = explore(run_o, max_paths=4)
+        if len(r0) != 1 or r0[0][1][0] != "ok":
+            continue
+        o = r0[0][1][1]
+        disc = [k for k in ("opcode", "specific_service") if isinstance(o.attrs.get(k), EnumMember)]
+        if not disc:
+            continue
+        eci = None
+        for c_ in repo.all_classes():
+            if c_.name == o.attrs[disc[0]].cls and repo.is_enum(c_):
+                eci = c_
+        if eci is None:
+            continue
+        for m in repo.enum_members(eci).values():
+            if m == o.attrs[disc[0]]:
+                continue
+            def run_v(st, raw=raw, m=m, d=disc[0]):
+                I0.st = st
+                ob = I0.call(hd_fb, [raw], {})
+                ob.attrs[d] = m
+                if d == "specific_service" and "general_service" in ob.attrs:
+                    gs = repo.cls(f"{PMOD}.location_protocol", "LocationProtocolGeneralService")
+                    ob.attrs["general_service"] = I0.call(repo.find_method(gs, "from_specific"), [m], {})
+                w = I0.call(repo.find_method(ob.cls, "as_bytes"), [ob], {})
+                ob2 = I0.call(hd_fb, [w], {})
+                if not isinstance(ob2, AObj):
+                    raise PathRaise("ValueError", "reader returns no object for this opcode")
+                w2 = I0.call(repo.find_method(ob2.cls, "as_bytes"), [ob2], {})
+                return ob2, w, w2
+            try:
+                rv = explore(run_v, max_paths=4)
+            except AnalysisError:
+                continue
+            if len(rv) != 1 or rv[0][1][0] != "ok":
+                continue
+            ob2, w, w2 = rv[0][1][1]
+            bw, bw2 = bits_of(I0, w), bits_of(I0, w2)
+            if bw is None or bw != bw2 or not isinstance(ob2, AObj) or ob2.attrs.get(disc[0]) != m:
+                continue
+            rawv = bytes(int("".join(str(b.c) for b in bw[i:i + 8]), 2) for i in range(0, len(bw), 8)) if all(isinstance(b, F) and b.is_const for b in bw) else None
+            if rawv is None:
+                continue
+            shp2 = ("HDAP", shape_of(ob2))
+            if shp2 not in shapes:
+                shapes[shp2] = (fname + "+sibling", rawv, "HDAP")
+                derived += 1
+    ctx.extra["derived_sibling_shapes"] = derived
     ctx.extra["captures"] = len(sd)
     ctx.extra["shapes"] = len(shapes)
     fam_count = {}
